@@ -1,8 +1,8 @@
 package c14
 
 import (
-	"fmt"
 	"reflect"
+	"strconv"
 	"strings"
 
 	"github.com/graphql-go/graphql/language/ast"
@@ -20,9 +20,39 @@ func snapshot(root ast.Node) string {
 	return b.String()
 }
 
+// snapshotHash is the FNV-1a hash of snapshot(root) computed without
+// building the text (the per-case check; the text is rebuilt on a mismatch).
+func snapshotHash(root ast.Node) uint64 {
+	h := hashSink(14695981039346656037)
+	dumpValue(&h, reflect.ValueOf(root), 0)
+	return uint64(h)
+}
+
+type sink interface {
+	WriteString(string) (int, error)
+	WriteByte(byte) error
+}
+
+type hashSink uint64
+
+func (h *hashSink) WriteString(s string) (int, error) {
+	x := uint64(*h)
+	for i := 0; i < len(s); i++ {
+		x ^= uint64(s[i])
+		x *= 1099511628211
+	}
+	*h = hashSink(x)
+	return len(s), nil
+}
+
+func (h *hashSink) WriteByte(c byte) error {
+	*h = hashSink((uint64(*h) ^ uint64(c)) * 1099511628211)
+	return nil
+}
+
 var sourceType = reflect.TypeOf((*source.Source)(nil))
 
-func dumpValue(b *strings.Builder, v reflect.Value, depth int) {
+func dumpValue(b sink, v reflect.Value, depth int) {
 	if depth > 200 {
 		b.WriteString("<deep>")
 		return
@@ -31,6 +61,7 @@ func dumpValue(b *strings.Builder, v reflect.Value, depth int) {
 		b.WriteString("<invalid>")
 		return
 	}
+	var num [24]byte
 	switch v.Kind() {
 	case reflect.Interface:
 		if v.IsNil() {
@@ -43,19 +74,21 @@ func dumpValue(b *strings.Builder, v reflect.Value, depth int) {
 			b.WriteString("nil")
 			return
 		}
-		fmt.Fprintf(b, "&%x", v.Pointer())
+		b.WriteByte('&')
+		b.WriteString(string(strconv.AppendUint(num[:0], uint64(v.Pointer()), 16)))
 		if v.Type() == sourceType {
 			return // identity only: the source text is not part of the tree
 		}
 		dumpValue(b, v.Elem(), depth+1)
 	case reflect.Struct:
-		b.WriteString(v.Type().Name())
+		t := v.Type()
+		b.WriteString(t.Name())
 		b.WriteByte('{')
 		for i := 0; i < v.NumField(); i++ {
 			if i > 0 {
 				b.WriteByte(' ')
 			}
-			b.WriteString(v.Type().Field(i).Name)
+			b.WriteString(t.Field(i).Name)
 			b.WriteByte(':')
 			dumpValue(b, v.Field(i), depth+1)
 		}
@@ -65,7 +98,9 @@ func dumpValue(b *strings.Builder, v reflect.Value, depth int) {
 			b.WriteString("nil[]")
 			return
 		}
-		fmt.Fprintf(b, "[%d:", v.Len())
+		b.WriteByte('[')
+		b.WriteString(string(strconv.AppendInt(num[:0], int64(v.Len()), 10)))
+		b.WriteByte(':')
 		for i := 0; i < v.Len(); i++ {
 			if i > 0 {
 				b.WriteByte(' ')
@@ -74,13 +109,13 @@ func dumpValue(b *strings.Builder, v reflect.Value, depth int) {
 		}
 		b.WriteByte(']')
 	case reflect.String:
-		fmt.Fprintf(b, "%q", v.String())
+		b.WriteString(strconv.Quote(v.String()))
 	case reflect.Bool:
-		fmt.Fprintf(b, "%v", v.Bool())
+		b.WriteString(strconv.FormatBool(v.Bool()))
 	case reflect.Int, reflect.Int64, reflect.Int32:
-		fmt.Fprintf(b, "%d", v.Int())
+		b.WriteString(string(strconv.AppendInt(num[:0], v.Int(), 10)))
 	default:
-		fmt.Fprintf(b, "<%s>", v.Kind())
+		b.WriteString("<" + v.Kind().String() + ">")
 	}
 }
 
